@@ -1,15 +1,23 @@
-//! impl driver for the "hosts" stream (C14).
+//! impl driver for the "hosts" stream (C14, and the hosts part of C17).
+//!
+//! Every case runs in its own 2 MiB-stack thread under a watchdog and the output is flushed
+//! after every case (vthread.rs): a panic prints "Panic", a hang "Hang", a stack overflow
+//! kills the driver, which the python side reports as DRIVER-DIED for exactly that case.
 #![allow(dead_code)]
 #[path = "hosts.rs"]
 mod hosts;
 #[path = "util.rs"]
 mod util;
-#[path = "vmain.rs"]
-mod vmain;
+#[path = "vthread.rs"]
+mod vthread;
 
-fn main() {
-    vmain::run(|stream, toks| match stream {
+fn dispatch(stream: &str, toks: &[&str]) -> String {
+    match stream {
         "hosts" => hosts::handle(toks),
         _ => "IMPL-EXN:unknown-stream".to_string(),
-    });
+    }
+}
+
+fn main() {
+    vthread::run(dispatch);
 }
